@@ -372,6 +372,7 @@ def run(ctx):
     # ---------------------------------------------------------------- C12.e CRC
     crcmod = prog.module("msmart.crc8")
     tbl = prog.fold_or_none(prog.module_assigns(crcmod).get("_CRC8_854_TABLE"), crcmod)
+    tbl = list(tbl) if isinstance(tbl, (tuple, list)) else tbl          # (a literal or a table computed at import from constants)
     tbl = list(tbl) if isinstance(tbl, tuple) else tbl          # (a tuple holds the same table)
     ctx.ob("C12.e", "msmart.crc8", tbl == dallas_table(), "_CRC8_854_TABLE equals the table generated from the Dallas/Maxim polynomial (reflected 0x8C)",
            func="msmart.crc8", file=crcmod.rel, construct="_CRC8_854_TABLE", fail="_CRC8_854_TABLE differs from the CRC-8/MAXIM table")
@@ -398,6 +399,20 @@ def run(ctx):
                     init0 = is_const(info["entry"].env.get(k), 0)
                     walk_ok = walk_ok or (is_tab and xor_ok and init0 and it == ("param", cf.params[0]))
         rets = [t for _pc, t, n, _ in cfs.returns if n is not None]
+    if not walk_ok and not loops:
+        # the same walk as a fold: functools.reduce(lambda crc, m: TABLE[(crc ^ m) & 0xFF], data, 0)
+        for _pc, t, n, _st in cfs.returns:
+            t = strip(t)
+            if n is not None and call_is(t, "functools.reduce") and len(t[2]) == 3 and strip(t[2][0])[0] == "lambda" and len(strip(t[2][0])[1]) == 2:
+                lam = strip(t[2][0])
+                a_, m_ = (("bound", lam[1][0]), ("bound", lam[1][1]))
+                body = strip(lam[2])
+                if body[0] == "sub":
+                    tab, idx = strip(body[1]), strip(body[2])
+                    is_tab = (is_const(tab) and list(tab[1]) == tbl) or (tab[0] == "global" and tab[1].endswith("_CRC8_854_TABLE"))
+                    xor_ok = idx[0] == "bin" and idx[1] == "&" and is_const(idx[3], 255) and strip(idx[2])[0] == "bin" and strip(idx[2])[1] == "^" \
+                        and {strip(strip(idx[2])[2]), strip(strip(idx[2])[3])} == {a_, m_}
+                    walk_ok = is_tab and xor_ok and strip(t[2][1]) == ("param", cf.params[0]) and is_const(strip(t[2][2]), 0)
     ctx.ob("C12.e", "msmart.crc8.calculate", walk_ok, "calculate() is crc = TABLE[(crc ^ byte) & 0xFF] over the data, starting from 0", func="msmart.crc8.calculate",
            file=crcmod.rel, construct="table walk", fail="crc8.calculate is not the standard table walk from 0 over every byte")
     from ..shared import check as shared_check
